@@ -150,6 +150,102 @@ def _sink_run(self) -> dict:
     return {}
 
 
+# --------------------------------------------------------------------------- histories (specs/NamesHist.tla)
+HIST_MENUS = {'Ns': [[], ['n'], ['xn', 'n']], 'Grp': [[], ['g'], ['h', 'g']], 'Name': ['a', 'xa']}
+
+
+def mc_hist(maxset):
+    mod = ('---- MODULE MCNamesHist ----\nEXTENDS NamesHist\n'
+           f"c_Ns == {'{' + ', '.join(tla(x) for x in HIST_MENUS['Ns']) + '}'}\n"
+           f"c_Grp == {'{' + ', '.join(tla(x) for x in HIST_MENUS['Grp']) + '}'}\n"
+           f"c_Name == {tla(set(HIST_MENUS['Name']))}\n====\n")
+    cfg = ('CONSTANTS\n  NsMenu <- c_Ns\n  GrpMenu <- c_Grp\n  NameMenu <- c_Name\n'
+           f'  MaxSet = {maxset}\n')
+    return mod, cfg
+
+
+def _hist(job):
+    """Step one TLC behaviour through one real InputTasks object."""
+    idx, beh = job
+    from taskchain.task import InputTasks
+
+    reg = InputTasks()
+    objs = {}
+    order, removed = [], False
+    done = []
+    for st in beh:
+        act = st['act']
+        if act['name'] == 'Add':
+            k = text(act['t'])
+            objs[k] = object()
+            reg[k] = objs[k]
+            order.append(k)
+        elif act['name'] == 'Remove':
+            k = text(act['t'])
+            del reg[k]
+            order.remove(k)
+            removed = True
+        elif act['name'] == 'Lookup':
+            q = text(act['q'])
+            want = None if 'err' in st['res'] else text(st['res'])
+            probes = {'reg[q]': lambda: reg[q], 'reg.get(q)': lambda: reg.get(q)}
+            for label, fn in probes.items():
+                try:
+                    got = fn()
+                except KeyError:
+                    got = None
+                if got is not (objs[want] if want else None):
+                    gname = next((n for n, o in objs.items() if o is got), got)
+                    return idx, (f'hist:{label}', f'after {" ; ".join(done)}: {label} with q={q!r} on a registry holding '
+                                                  f'{order} gave {gname!r}, the property requires '
+                                                  f'{want if want else st["res"]["err"]!r}')
+            if (q in reg) != (want is not None):
+                return idx, ('hist:in', f'after {" ; ".join(done)}: ({q!r} in reg) = {q in reg} on a registry holding {order}')
+        if not removed:
+            for i, k in enumerate(order):
+                if reg[i] is not objs[k]:
+                    return idx, ('hist:index', f'after {" ; ".join(done)}: reg[{i}] is not the {i}-th task added ({k})')
+        done.append(f"{act['name']}({text(act.get('t') or act.get('q'))})")
+    return idx, None
+
+
+def histories(ctx):
+    from ..core import MachineryError
+    from ..tlaparse import parse_trace_file
+
+    quick = ctx.quick()
+    mod, cfg = mc_hist(2 if quick else 3)
+    res = run_tlc('MCNamesHist', cfg_text=cfg + 'INIT Init\nNEXT Next\nINVARIANT TypeOK\nINVARIANT FindConforms\n'
+                  'INVARIANT OrderFree\nPROPERTY LookupIsCurrent\n', extra_files={'MCNamesHist.tla': mod},
+                  workers=8, timeout=1500)
+    account(ctx, res, 'NamesHist: every history of adds / removes / lookups on a registry; FindConforms, OrderFree, '
+                      'LookupIsCurrent')
+    out = scratch(f'nameshist-{ctx.prop}')
+    for f in out.glob('tr_*'):
+        f.unlink()
+    num, depth = (400, 14) if quick else (3000, 18)
+    mod, cfg = mc_hist(3 if quick else 4)
+    sim = run_tlc('MCNamesHist', cfg_text=cfg + 'INIT Init\nNEXT Next\n', extra_files={'MCNamesHist.tla': mod}, workers=1,
+                  timeout=1200, simulate=f'file={out}/tr,num={num}', depth=depth, seed=ctx.seed + 1)
+    behs = []
+    for f in sorted(out.glob('tr_*')):
+        states = parse_trace_file(f.read_text())
+        behs.append([st for _, st in states[1:]])
+        f.unlink()
+    if not behs:
+        raise MachineryError('NamesHist simulation produced no behaviour:\n' + sim.stdout[-1000:])
+    ctx.transitions += sum(len(b) for b in behs)
+    ctx.tlc_runs.append({'run': f'NamesHist simulate num={num} depth={depth}', 'behaviours': len(behs),
+                         'transitions': sum(len(b) for b in behs)})
+    res = pmap(_hist, list(enumerate(behs)))
+    ctx.traces += len(behs)
+    ctx.extra['registry_histories_replayed'] = len(behs)
+    ctx.extra['registry_lookups_compared'] = sum(1 for b in behs for st in b if st['act']['name'] == 'Lookup')
+    for idx, bad in res:
+        if bad:
+            ctx.report(bad[0], bad[1], detail={'behaviour': [st['act'] for st in behs[idx]]})
+
+
 def run(ctx):
     maxset = 2 if ctx.quick() else 3
     mod, cfg = mc(maxset, True)
@@ -177,6 +273,7 @@ def run(ctx):
     for c in cases[:3] + cases[-3:]:
         ctx.sample({'names': [text(t) for t in c['names']], 'query': text(c['q']),
                     'expected': _expect(c['r']) or c['r']['err']})
+    histories(ctx)
     ctx.extra['cases_where_textual_suffix_rule_differs'] = sum(1 for c in cases if c['r'] != c['textual'])
     ctx.assumptions += ['names are drawn from menus of namespace paths (depth <= 2), group paths (depth <= 2) and two '
                         'task names chosen so that tokens are textual suffixes of one another (n/xn, g/xg, a/xa)']
